@@ -9,7 +9,7 @@ from gwcs import wcs as gw
 
 PROP = "C03"
 LEAN_MODULE = "GwcsProofs.C03"
-SOURCES = ["GwcsModel/Basic.lean", "GwcsModel/BBox.lean", "GwcsModel/Pipeline.lean", "GwcsProofs/C03.lean"]
+SOURCES = ["GwcsModel/Basic.lean", "GwcsModel/BBox.lean", "GwcsModel/Pipeline.lean", "GwcsProofs/C03.lean", "GwcsProofs/C03a.lean", "GwcsProofs/C03c.lean"]
 THEOREMS = [
     "Gwcs.BBox.outside_iff",
     "Gwcs.BBox.masked_of_outside",
@@ -28,6 +28,7 @@ THEOREMS = [
     "Gwcs.BBox.inside_iff_closed",
     "Gwcs.Pipe.set_get_roundtrip",
     "Gwcs.Pipe.bad_dim_rejected",
+    "Gwcs.BBoxDict.dict_order_irrelevant",
 ]
 RULE = ("case = (WCS of 1..4 axes with a separable exact affine transform, box (integer/fractional/zero-width/offset) or none, fill "
         "(NaN/+-inf/finite/0), masking flag explicit or default, batch of points drawn per axis from {lo, hi, one ulp either side, middle, "
@@ -124,7 +125,12 @@ def impl(case):
     how = case.get("how", "setter")
     if case["box"] is not None:
         if how == "setter" or n == 1:
-            w.bounding_box = _box_arg(case["box"])
+            arg_ = _box_arg(case["box"])
+            if case.get("as_dict") and n > 1:
+                # the box given per input name, the keys NOT in input order
+                names_ = list(w.pipeline[0].transform.inputs)
+                arg_ = {names_[i]: arg_[i] for i in reversed(range(n))}
+            w.bounding_box = arg_
         else:
             # the box lives on the astropy model in astropy's own ('C', last axis first) order, as wcs_from_fiducial and many
             # pipelines create it; "copy" then assigns that ModelBoundingBox object to another WCS
@@ -415,6 +421,8 @@ def gen(rng, tier):
                 "wrong_box": wrong, "has_edge": has_edge, "how": rng.choice(["setter", "setter", "model", "copy"])}
         case["flag_form"] = rng.choice([None, None, "np", "int"])
         case["wrong_as_array"] = rng.random() < 0.3
+        if case["how"] == "setter" and len(ab) > 1 and _ % 3 == 1:
+            case["as_dict"] = True
         if case["how"] == "setter" and rng.random() < 0.4:
             # the same arithmetic as a 2- or 3-step pipeline, optionally with one more world than pixel axes
             case["nsteps"] = rng.choice([2, 3])
